@@ -48,7 +48,7 @@ func drawJSONDoc(t *rapid.T) string {
 }
 
 var subCfg = ev.Register("config-inputs",
-	"arbitrary JSON (documents shaped like the configuration with boundary / ill-typed / overflowing values at the leaves, plus raw malformed documents) written to var/config.json and loaded with LoadOrDefault, and submitted as API updates with UpdatePartialFromConfig, against a configuration with a running cache + janitor and subscribers, inside a journaling child process; oracle: every input is accepted or rejected with an error and the process stays alive (a panic in a subscriber goroutine aborts the child and the journal names the input); non-trivial = batch contains a document that parses as JSON; distinct by batch",
+	"arbitrary JSON (documents shaped like the configuration with boundary / ill-typed / overflowing values at the leaves, plus raw malformed documents) written to var/config.json and loaded with LoadOrDefault, and submitted as API updates with UpdatePartialFromConfig, against a configuration with a running cache + janitor and subscribers, inside a journaling child process; oracle: every input is accepted or rejected with an error and the process stays alive (a panic in a subscriber goroutine aborts the child and the journal names the input), and afterwards every read route of the dashboard API, served on the saved configuration as the next start would, answers its request (no handler panic); non-trivial = batch contains a document that parses as JSON; distinct by batch",
 	func(c CfgInput, o *ev.Obs) *ev.Failure {
 		child, err := childproc.Start()
 		if err != nil {
@@ -88,8 +88,31 @@ var subCfg = ev.Register("config-inputs",
 				return fl
 			}
 		}
-		return step("final state", map[string]any{"op": "state"})
+		if fl := step("final state", map[string]any{"op": "state"}); fl != nil {
+			return fl
+		}
+		// the values that were accepted are now the saved configuration: the dashboard API's read routes, served on
+		// it the way the next start would, answer every request (a handler that panics drops its connection)
+		res, err := child.Do(map[string]any{"op": "api"})
+		if err != nil {
+			if d, ok := err.(*childproc.Died); ok {
+				return ev.Failf("config-input.process-aborted:api:"+abortClass(d.Stderr), "serving the API on the saved configuration: the process aborted: %s", d.Stderr)
+			}
+			return ev.Failf("config-input.harness", "api: %v", err)
+		}
+		if res.Probe != "ok" {
+			return ev.Failf("config-input.api-route-panics", "after files %q and updates %q: %s", clipAll(c.Files), clipAll(c.Updates), res.Probe)
+		}
+		return nil
 	})
+
+func clipAll(xs []string) []string {
+	out := make([]string, len(xs))
+	for i, x := range xs {
+		out[i] = clip(x)
+	}
+	return out
+}
 
 func abortClass(stderr string) string {
 	switch {
